@@ -838,3 +838,33 @@ Proof. intros i a Hs Hn. apply through_kernel_cases; [assumption|right; exact Hn
 
 Lemma bind_getsockname_roundtrip_fixed_holds : bind_getsockname_roundtrip_fixed.
 Proof. intros i a Hs. apply through_kernel_cases; [assumption|left; reflexivity]. Qed.
+
+(** * H29: the length recvmsg reports for a Unix sender that is not bound is 0. *)
+
+(** The unnamed Unix address reads back as itself with every length the kernel reports for it:
+    2 (getsockname, accept) and 0 (recvmsg, sender not bound: nothing is written, whatever the
+    storage held before); in fact with every length below [sizeof(sa_family_t)]. *)
+Definition unix_unnamed_every_reported_length : Prop :=
+  (forall fill, read_back Fixed IUnix UnUnnamed (kernel_len UnUnnamed) fill = Some UnUnnamed)
+  /\ (forall fill, read_back Fixed IUnix UnUnnamed (kernel_len_recv UnUnnamed) fill = Some UnUnnamed)
+  /\ (forall b len, len < 2 -> init Fixed IUnix b len = Some UnUnnamed).
+
+(** Before the repair the code subtracted the offset of [sun_path] from such a length: a debug
+    assertion, or a wrapped length and an out-of-bounds slice (SIGSEGV observed). *)
+Definition unix_length_zero_h29_refuted : Prop :=
+  forall b len, len < 2 -> init AsIs IUnix b len = None.
+
+Lemma unix_unnamed_every_reported_length_holds : unix_unnamed_every_reported_length.
+Proof.
+  split; [|split].
+  - intros fill. vm_compute. reflexivity.
+  - intros fill. vm_compute. reflexivity.
+  - intros b len H. cbn [init]. unfold init_un, SUN_PATH_OFFSET.
+    destruct (N.ltb_spec len 2) as [_|H']; [reflexivity|lia].
+Qed.
+
+Lemma unix_length_zero_h29_refuted_holds : unix_length_zero_h29_refuted.
+Proof.
+  intros b len H. cbn [init]. unfold init_un, SUN_PATH_OFFSET.
+  destruct (N.ltb_spec len 2) as [_|H']; [reflexivity|lia].
+Qed.
